@@ -83,7 +83,7 @@ theorem tx_sum (b : Bool) (op : Op) (now : Int) (db : DB) (h : WF db) :
     Sum now op db (Model.tx b op now db) := by
   cases op with
   | strIncr k d => exact .eff (strIncr_eff h k d now) (.inl rfl)
-  | strIncrFloat k d => exact .eff (Eff.refl _ _) (.inl rfl)
+  | strIncrFloat k d => exact .eff (strIncrFloat_eff h k d now) (.inl rfl)
   | strSet k v => exact .eff (strSet_eff h k v none now) (.inl rfl)
   | strSetExpires k v ttl => exact .eff (strSet_eff h k v _ now) (.inl rfl)
   | strSetMany items => exact .eff (strSetMany_eff items now h) (.inl rfl)
@@ -120,7 +120,7 @@ theorem tx_sum (b : Bool) (op : Op) (now : Int) (db : DB) (h : WF db) :
   | setPop k o => exact .eff (setPop_eff k o now) (.inl rfl)
   | hashDelete k fs => exact .eff (hashDelete_eff k fs now) (.inl rfl)
   | hashIncr k f d => exact .eff (hashIncr_eff k f d now) (.inl rfl)
-  | hashIncrFloat k f d => exact .eff (Eff.refl _ _) (.inl rfl)
+  | hashIncrFloat k f d => exact .eff (hashIncrFloat_eff k f d now) (.inl rfl)
   | hashSet k f v => exact .eff (hashSet_eff k f v now) (.inl rfl)
   | hashSetMany k items => exact .eff (hashSetMany_eff k items now) (.inl rfl)
   | hashSetNotExists k f v => exact .eff (hashSetNotExists_eff k f v now) (.inl rfl)
